@@ -56,6 +56,12 @@ func C14(c *core.Ctx) {
 	c.Explain = "Algebraic laws over all names (total order, round trips) are NOT decided. Decided structural necessary conditions: (R14.1) Component.Compare decides by Typ, then len(Val), then bytes.Compare(lhs.Val, rhs.Val): the byte comparison is reachable only on the edges asserting equal types and equal lengths, the constant -1 is returned only under 'lhs smaller' tests and +1 never under them; Component.Equal tests the same three criteria; Name.Compare/Equal/IsPrefix compare component i with component i, stop at the first difference and break ties by length with the right sign; HashInto feeds the 8-byte type before the value, Name.Hash and Name.PrefixHash reset once and feed every component in order, PrefixHash records a sum after each component; (R14.2) in the URI parsers every constant or len-1 or loop-variable index into the input string or into a strings.Split result is under a dominating length guard in the function or at every caller; (R14.3) component types 0 and > 0xffff are rejected."
 	c.RuleText = "instances: the comparison/equality/hash functions of enc.Component and enc.Name, every index operation in the 10 URI-parsing functions. Non-trivial = has a branch edge, operand pair or index form to decide."
 	p := c.P
+	// ---- R14.9 (shared with C15 R15.4) containers keyed by a string form of a name use one
+	// form for insert, find and remove: two forms that disagree for some component types
+	// give the container a notion of name identity different from Name.Equal
+	c.Import(C15, "R14.9", "a name-keyed container derives its keys from different string forms on different operations: its name identity disagrees with Name.Equal", 1, func(k string) bool {
+		return k == "R15.4:memory-store-key-agreement"
+	})
 	sl := &core.Slicer{P: p}
 
 	// ---- R14.1 Component.Compare / Equal
